@@ -98,6 +98,8 @@ PtClauses(c, e) ==
 
 (* jump laws: flux balances in the frame of the discontinuity + compressive; *)
 (* a contact carries equal pressure and normal velocity and moves with the fluid *)
+(* the projection's own uncertainty of a located jump of a tabulated solver (speed good to two cells per elapsed time), capped at 2 % *)
+JumpSlack(j, n) == IF Has(j, "slack") /\ n \in DOMAIN j.slack THEN Min(j.slack[n], 2000000) ELSE 0
 JumpClauses(c, j) ==
   LET g == Groups(c)
       \* Mader's CJ state is extrapolated from first-cell averages of two grids (worst residual 3e-6), not a cell average itself
@@ -118,9 +120,9 @@ JumpClauses(c, j) ==
                 \cup Chk("RH.isothermal", Balanced(j.cont.T, t)) \cup Chk("RH.shock-position", Balanced(j.cont.pos, t))
                ELSE IF Has(j, "balL")               \* two clocks (see PdeClauses): the shock speed in the accepted time or in the solution's own
                THEN UNION { Chk("RH." \o n, Balanced(j.bal[n], t) \/ Balanced(j.balL[n], t)) : n \in Clocked }
-               ELSE  Chk("RH.mass", Balanced(j.bal.mass, t))
-                \cup Chk("RH.mom",  Balanced(j.bal.mom, t))
-                \cup Chk("RH.ener", Balanced(j.bal.ener, t)))
+               ELSE  Chk("RH.mass", Balanced(j.bal.mass, t + JumpSlack(j, "mass")))
+                \cup Chk("RH.mom",  Balanced(j.bal.mom, t + JumpSlack(j, "mom")))
+                \cup Chk("RH.ener", Balanced(j.bal.ener, t + JumpSlack(j, "ener"))))
          \cup (IF Has(j, "tan") THEN Chk("RH.tangential-velocity", Balanced(j.tan, t)) ELSE {})
          \cup (IF j.kind = "slip"
                THEN  Chk("RH.slip.pressure", Balanced(j.cont.p, t)) \cup Chk("RH.slip.direction", Balanced(j.cont.dir, t))
@@ -130,7 +132,7 @@ JumpClauses(c, j) ==
          \cup (IF j.kind = "contact"
                THEN  Chk("RH.contact.p", Balanced(j.cont.p, t))
                 \cup Chk("RH.contact.u", Balanced(j.cont.u, t))
-                \cup Chk("RH.contact.speed", Balanced(j.cont.s, t))
+                \cup Chk("RH.contact.speed", Balanced(j.cont.s, t + JumpSlack(j, "speed")))
                ELSE {})
         ELSE {})
   \cup (IF "ADM" \in g /\ j.kind \in {"shock", "isoshock"} THEN Chk("ADM.compressive", Compressive(j)) ELSE {})
